@@ -372,6 +372,9 @@ pub fn work(tier: u8, seed: u64, idx: usize) -> Rec {
         }
     }
     rec.nontrivial = kinds.count_ones() >= 5;
+    if !rec.viol.is_empty() {
+        rec.prog_json = json!({"seed": seed, "idx": idx});
+    }
     rec.extra = json!({"family": "diff", "type": TYPES[ty], "sequences": BATCH, "ops_per_sequence": nops, "operation_kinds_exercised": kinds.count_ones(), "first_sequence": sample});
     rec
 }
